@@ -9,6 +9,7 @@ R : (a) in-process: the where-clause of each case's real expansion, as a set of 
 """
 import json
 import os
+import re
 
 import vlib
 from vlib import log
@@ -74,6 +75,11 @@ def build(c, key):
             lit += "{%d%s}" % (idx, spec)
             named_args.append(f"v{k} = {nm}")
         lit += " "
+    if c.get("star"):
+        # `{s:.*}`: explicit value, the precision is taken from the next positional argument (a constant)
+        lit = "{s:.*} " + re.sub(r"\{(\d+)", lambda m: "{" + str(int(m.group(1)) + 1), lit)
+        pos_args = ["2usize"] + pos_args
+        named_args = named_args + ["s = 1.5f32"]
     args = "".join(", " + a for a in pos_args + named_args)
     a = ATTR[D]
     fattrs = []
@@ -109,7 +115,7 @@ def build(c, key):
 def key_of(c):
     fs = ",".join(f"{f['p']}:{f['fa']}:{f['fref']}" for f in c["fields"])
     us = ",".join(f"{u['f']}{u['how']}{u['tr']}" for u in c["uses"])
-    return f"{c['D']}|{c['level']}|{fs}|{'attr' if c['hasAttr'] else 'noattr'}|{us}"
+    return f"{c['D']}|{c['level']}|{fs}|{'attr' if c['hasAttr'] else 'noattr'}{'*' if c.get('star') else ''}|{us}"
 
 
 def norm_ty(s):
